@@ -355,11 +355,13 @@ pub struct GenCfg {
     pub depth: u32,
     /// allow CREATE/CREATE2 templates
     pub creates: bool,
+    /// bias call templates towards STATICCALL (C10)
+    pub static_bias: bool,
 }
 
 impl Default for GenCfg {
     fn default() -> Self {
-        GenCfg { callees: (0..pool::N_FIXED).collect(), extra_addrs: vec![], max_stmts: 8, depth: 2, creates: true }
+        GenCfg { callees: (0..pool::N_FIXED).collect(), extra_addrs: vec![], max_stmts: 8, depth: 2, creates: true, static_bias: false }
     }
 }
 
@@ -499,7 +501,7 @@ fn generic_op(cfg: &GenCfg) -> BoxedStrategy<Stmt> {
 
 fn call_stmt(cfg: &GenCfg) -> BoxedStrategy<Stmt> {
     (
-        prop::sample::select(vec![0xf1u8, 0xf1, 0xf1, 0xf2, 0xf4, 0xfa]),
+        prop::sample::select(if cfg.static_bias { vec![0xf1u8, 0xf2, 0xf4, 0xfa, 0xfa, 0xfa] } else { vec![0xf1u8, 0xf1, 0xf1, 0xf2, 0xf4, 0xfa] }),
         gas_arg(),
         addr_arg(cfg),
         value_arg(),
